@@ -119,7 +119,11 @@ func (t *tr) typeInvDepth(x Term, T types.Type, env Env, depth int) Term {
 			return tTrue
 		}
 		return tTrue
-	case *types.Pointer, *types.Map, *types.Chan:
+	case *types.Pointer:
+		// interior field addresses are negative; allocated objects are in (0, allocTop]
+		top := t.readIn(env, t.allocTop)
+		return le(x, top)
+	case *types.Map, *types.Chan:
 		top := t.readIn(env, t.allocTop)
 		return and(le(intLit(0), x), le(x, top))
 	case *types.Interface, *types.Signature:
